@@ -177,7 +177,8 @@ inductive Step where
   /-- a wildcard (`attr`: attribute wildcard, else element wildcard) with processContents `pc` meets a name
       of namespace `n` -/
   | wild (attr : Bool) (pc : PC) (n : Nat)
-  /-- a lookup that reads the maps as they are, without loading (root element of the document) -/
+  /-- a top-level element (the root; in a lazy run every depth-level element, schemas.py:1364) is looked up in the
+      maps as they are, without loading, and validated by the component found there: a current one -/
   | nsRead (n : Nat)
   /-- a memoised method called with key `k` -/
   | memoCall (k : Nat)
@@ -239,7 +240,7 @@ def step (sch : Sch) (m : Mode) (s : Res × Ctx) : Step → (Res × Ctx) × Opti
     if s.1.stale then (s, none)
     else ((applyWrites s.1 (budgeted (stepWrites sch m s.1 s.2 d t) b), s.2), none)
   | .wild a pc n => (((wildStep sch m s.1 a pc n).1, s.2), (wildStep sch m s.1 a pc n).2)
-  | .nsRead n => (s, some (.nsSeen (isLoaded sch s.1 n)))
+  | .nsRead n => (({ s.1 with stale := false }, s.2), some (.nsSeen (isLoaded sch s.1 n)))
   | .collect d => (s, some (.collected s.2 (gate sch m s.1 s.2 d)))
   | .leave ids => ((s.1, s.2.leave ids), none)
   | .setCtx ctx => ((s.1, ctx), none)
